@@ -42,8 +42,8 @@ Definition agree (c : case) : bool :=
    - a group of overlapping lookups ([par_ok]): every answer with a slot carries the chain's slot
      of the root asked for; a lookup that begins when its root must be cached is answered with a
      slot; an error answer needs a failing fetch of the same root within the group (its own, or --
-     for an implementation that shares fetches -- another goroutine's); a successful miss makes
-     the root known from the instant its own fetch was answered. *)
+     for an implementation that shares fetches -- another goroutine's); a root answered with a
+     slot must be cached after the group. *)
 Definition chain_slot (chain : list (root * slot)) (r : root) : slot :=
   match get chain r with Some sl => sl | None => 0 end.
 
@@ -60,29 +60,30 @@ Definition known_after_clean (chain : list (root * slot)) (known : list root) (e
   if e <=? retention then known
   else filter (fun r => negb (chain_slot chain r <? min_slot e spe)) known.
 
-(* None = violated; Some known' = the roots that must be cached after the group *)
+(* None = violated; Some known' = the roots that must be cached after the group.
+   WHEN, between its begin and its answer, a lookup that misses stores the fetched slot is the
+   implementation's business (the code as it stands stores when its own fetch is answered; an
+   implementation sharing fetches stores when the shared fetch is answered), so inside a group
+   only the roots known at its begin or reported by a block event meanwhile must hit; the roots
+   answered with a slot ([cands]) must be cached at the end of the group unless a cleaning run that
+   came after the lookup's begin was entitled to remove them. *)
 Fixpoint par_ok (chain : list (root * slot)) (ans : list answer) (all : list pev)
-         (known : list root) (pend : list N) (evs : list pev) : option (list root) :=
+         (known cands : list root) (evs : list pev) : option (list root) :=
   match evs with
-  | [] => Some known
+  | [] => Some (cands ++ known)
   | PBegin i r :: evs' =>
       match find_answer ans i with
       | None => None                                   (* every lookup is answered *)
-      | Some a =>
-          if memb N.eqb r known
-          then match a with Some _ => par_ok chain ans all known pend evs' | None => None end
-          else par_ok chain ans all known (i :: pend) evs'
+      | Some (Some _) => par_ok chain ans all known (r :: cands) evs'
+      | Some None =>
+          if memb N.eqb r known then None              (* it must have been a hit *)
+          else if fails_on all r then par_ok chain ans all known cands evs'
+          else None                                    (* an error without any failing fetch of that root *)
       end
-  | PEnd i r f :: evs' =>
-      if memb N.eqb i pend then
-        match find_answer ans i with
-        | Some (Some _) => par_ok chain ans all (r :: known) (remove_id i pend) evs'
-        | Some None => if fails_on all r then par_ok chain ans all known (remove_id i pend) evs' else None
-        | None => None
-        end
-      else par_ok chain ans all known pend evs'
-  | PEvent r _ :: evs' => par_ok chain ans all (r :: known) pend evs'
-  | PClean e spe :: evs' => par_ok chain ans all (known_after_clean chain known e spe) pend evs'
+  | PEnd _ _ _ :: evs' => par_ok chain ans all known cands evs'
+  | PEvent r _ :: evs' => par_ok chain ans all (r :: known) cands evs'
+  | PClean e spe :: evs' =>
+      par_ok chain ans all (known_after_clean chain known e spe) (known_after_clean chain cands e spe) evs'
   end.
 
 Definition answer_slot_ok (chain : list (root * slot)) (a : answer) : bool :=
